@@ -8,7 +8,7 @@
 package ctree
 
 // Every function under contract in this package also serves the properties that depend on the whole package.
-//@ package-props C01 C02 C03 C04 C05 C09 C10 C14
+//@ package-props C01 C02 C03 C04 C05 C09 C10 C14 C12
 
 // A node is a branch (its leafBranch holds the child map), a leaf (any other
 // non-nil value) or empty (nil).
